@@ -643,7 +643,7 @@ func buildPreservationSet(files []parsedFile, cfg *Config) *preservationSet {
 	preservePackageSurfaceSymbols(files, cfg, protected)
 	for i := range files {
 		for _, expr := range files[i].exprs {
-			collectProtectedMacroTemplateSymbols(expr, files[i].analysis.RootScope, protected)
+			collectProtectedMacroTemplateSymbols(expr, files[i].analysis.RootScope, templateRefs(files[i].analysis), protected)
 		}
 	}
 	return protected
@@ -790,29 +790,38 @@ func nodeSymbol(result *analysis.Result, node *lisp.LVal) *analysis.Symbol {
 	return nil
 }
 
-func collectProtectedMacroTemplateSymbols(expr *lisp.LVal, root *analysis.Scope, protected *preservationSet) {
-	if expr == nil || root == nil || expr.Type != lisp.LSExpr || expr.IsQuoted() || len(expr.Cells) < 4 {
-		return
+// templateRefs indexes the analyzer's references by the node they were
+// recorded for, so that a mention in a template can be traced to the binding
+// the analyzer (and therefore applyAssignments) takes it to refer to.
+func templateRefs(result *analysis.Result) map[*lisp.LVal]*analysis.Symbol {
+	refs := make(map[*lisp.LVal]*analysis.Symbol)
+	if result == nil {
+		return refs
 	}
-	if expr.Cells[0].Type != lisp.LSymbol || expr.Cells[0].Str != "defmacro" {
-		return
+	for _, ref := range result.References {
+		if ref != nil && ref.Node != nil && ref.Symbol != nil {
+			refs[ref.Node] = ref.Symbol
+		}
 	}
-	macroScope := findScopeForNode(root, expr)
-	if macroScope == nil {
-		return
-	}
-	for _, body := range expr.Cells[3:] {
-		walkMacroBodyForQuasiquote(body, macroScope, protected)
-	}
+	return refs
 }
 
-func walkMacroBodyForQuasiquote(node *lisp.LVal, scope *analysis.Scope, protected *preservationSet) {
+func collectProtectedMacroTemplateSymbols(expr *lisp.LVal, root *analysis.Scope, refs map[*lisp.LVal]*analysis.Symbol, protected *preservationSet) {
+	if expr == nil || root == nil || expr.Type != lisp.LSExpr || expr.IsQuoted() {
+		return
+	}
+	// Templates are not only written in macro bodies: a function that builds
+	// code or data with quasiquote mentions names the same way.
+	walkMacroBodyForQuasiquote(expr, root, refs, protected)
+}
+
+func walkMacroBodyForQuasiquote(node *lisp.LVal, scope *analysis.Scope, refs map[*lisp.LVal]*analysis.Symbol, protected *preservationSet) {
 	if node == nil || node.Type != lisp.LSExpr {
 		return
 	}
 	if !node.IsQuoted() && len(node.Cells) > 0 && node.Cells[0].Type == lisp.LSymbol && node.Cells[0].Str == "quasiquote" {
 		if len(node.Cells) > 1 {
-			collectTemplateSymbols(node.Cells[1], scope, protected)
+			collectTemplateSymbols(node.Cells[1], scope, refs, protected)
 		}
 		return
 	}
@@ -825,15 +834,22 @@ func walkMacroBodyForQuasiquote(node *lisp.LVal, scope *analysis.Scope, protecte
 		}
 	}
 	for _, child := range node.Cells {
-		walkMacroBodyForQuasiquote(child, scope, protected)
+		walkMacroBodyForQuasiquote(child, scope, refs, protected)
 	}
 }
 
-func collectTemplateSymbols(node *lisp.LVal, scope *analysis.Scope, protected *preservationSet) {
+func collectTemplateSymbols(node *lisp.LVal, scope *analysis.Scope, refs map[*lisp.LVal]*analysis.Symbol, protected *preservationSet) {
 	if node == nil {
 		return
 	}
 	if node.Type == lisp.LSymbol {
+		// The binding the analyzer resolved this very mention to is the one
+		// whose renaming would rewrite the template (a binding value is
+		// analyzed in the scope around its let, not in the let's own).
+		if sym := refs[node]; sym != nil {
+			protected.symbols[sym] = true
+			protected.symbolKeys[symbolLookupKey(sym)] = true
+		}
 		if sym := preserveMacroTemplateSymbol(scope, node.Str); sym != nil {
 			protected.symbols[sym] = true
 			protected.symbolKeys[symbolLookupKey(sym)] = true
@@ -850,7 +866,7 @@ func collectTemplateSymbols(node *lisp.LVal, scope *analysis.Scope, protected *p
 		}
 	}
 	for _, child := range node.Cells {
-		collectTemplateSymbols(child, scope, protected)
+		collectTemplateSymbols(child, scope, refs, protected)
 	}
 }
 
@@ -928,21 +944,6 @@ func splitQualifiedSymbol(name string) (string, string, bool) {
 }
 
 var packageNameArg = astutil.PackageNameArg
-
-func findScopeForNode(scope *analysis.Scope, node *lisp.LVal) *analysis.Scope {
-	if scope == nil {
-		return nil
-	}
-	if scope.Node == node {
-		return scope
-	}
-	for _, child := range scope.Children {
-		if found := findScopeForNode(child, node); found != nil {
-			return found
-		}
-	}
-	return nil
-}
 
 func compareSymbols(a, b *analysis.Symbol) int {
 	if a == nil || b == nil {
